@@ -375,7 +375,7 @@ func genC15Sub(t *rapid.T) C15SubCase {
 }
 
 func TestC15(t *testing.T) {
-	p := Prop[C15Case]{ID: "C15", Sub: "roundtrip", Gen: genC15, Run: runC15, Quick: 10000, Thorough: 40000}
+	p := Prop[C15Case]{ID: "C15", Sub: "roundtrip", Gen: genC15, Run: runC15, Quick: 10000, Thorough: 200000}
 	Enumerate(t, p, "calendar-grid", func(yield func(C15Case) bool) {
 		years := []int{1, 4, 100, 1900, 2000, 2023, 2024, 9999}
 		offsets := []struct {
@@ -444,7 +444,7 @@ func TestC15(t *testing.T) {
 	})
 	RunProp(t, pb)
 
-	ps := Prop[C15SubCase]{ID: "C15", Sub: "subnano", Gen: genC15Sub, Run: runC15Sub, Quick: 3000, Thorough: 20000}
+	ps := Prop[C15SubCase]{ID: "C15", Sub: "subnano", Gen: genC15Sub, Run: runC15Sub, Quick: 3000, Thorough: 100000}
 	RunProp(t, ps)
 }
 
